@@ -152,6 +152,15 @@ func checkLikeTranslator(c *core.Ctx, t *fnTable, ids map[string]int64) {
 			return absint.Tuple{Elems: []absint.Val{absint.NN("compiled"), absint.Nil{}}}, true
 		case callee == "regexp.(*Regexp).MatchString":
 			return absint.S("matched"), true
+		case (callee == "strings.ContainsRune" || callee == "strings.IndexRune") && len(args) == 2:
+			if sc, ok := args[0].(absint.Const); ok && sc.V.Kind() == constant.String {
+				if r, ok := absint.AsInt(args[1]); ok {
+					if callee == "strings.ContainsRune" {
+						return absint.Bool(strings.ContainsRune(constant.StringVal(sc.V), rune(r))), true
+					}
+					return absint.Int(int64(strings.IndexRune(constant.StringVal(sc.V), rune(r)))), true
+				}
+			}
 		}
 		return nil, false
 	}, ctorHook(ids), errorfHook)
@@ -537,11 +546,22 @@ func checkSubstrShape(c *core.Ctx, t *fnTable, ids map[string]int64) {
 				continue
 			}
 			full++
-			if !strings.HasPrefix(r.payload, "values[0].Str[values[1].Int:") {
-				bad = "the result is not values[0].Str sliced from values[1].Int: " + r.payload
+			s0, st, ln := "values[0].Str", "values[1].Int", "values[2].Int"
+			okForms := []string{s0 + "[" + st + ":]"}
+			if n == 3 {
+				okForms = append(okForms,
+					s0+"["+st+":][:"+ln+"]",
+					s0+"["+st+":("+st+" + "+ln+")]",
+					s0+"["+st+":len("+s0+")]")
 			}
-			if n == 3 && !strings.Contains(r.payload, "values[2].Int") && !strings.HasSuffix(r.payload, ":]") && !strings.Contains(r.payload, "len(") {
-				bad = "the length argument does not bound the result: " + r.payload
+			match := false
+			for _, f := range okForms {
+				if r.payload == f {
+					match = true
+				}
+			}
+			if !match {
+				bad = "the result must be " + strings.Join(okForms, " or ") + "; a path returns " + r.payload
 			}
 		}
 		if bad == "" && full == 0 {
